@@ -2,7 +2,42 @@
     This file only pins statements: every theorem restates a lemma of proofs/ verbatim and is closed by it. *)
 From CacheD Require Import Base Sketch Model Window Micro.
 From CacheD.proofs Require Import Defs ApiProofs HistoryProofs StatsProofs.
-From CacheD.proofs Require Import MicroProofs MicroLedger MicroCharged MicroFlow.
+From CacheD.proofs Require Import MicroProofs MicroLedger MicroCharged MicroFlow MicroHeld.
+
+(** (C05, "no held key is uncharged", at every state of every micro schedule, no condition on the events): before
+   shutdown() is called and while the worker has not panicked, every stored entry is charged under its own id for its own
+   key - inside the windows of put_or_update, of the worker's put (between admission and store insert), put with
+   time-to-live and Delete as well *)
+Theorem C05_micro_held_is_charged_all :
+  forall cfg evs k e, c_debug cfg = true ->
+  let ms := mrun cfg evs in
+  shut (mbase ms) = false -> worker (mbase ms) <> Dead ->
+  alookup k (store (mbase ms)) = Some e ->
+  exists wk, alookup (e_id e) (weights (mbase ms)) = Some wk /\ w_key wk = k.
+Proof. exact micro_held_is_charged_all. Qed.
+Print Assumptions C05_micro_held_is_charged_all.
+
+(** (C05 at every micro state: keys and charges correspond one to one, up to the one command in flight): under the
+   same guard, distinct stored keys carry distinct ids, and the expiry index never lists the id of a put that is still
+   pending or admitted but not yet stored - so the sweeper can never release the charge of a key that is about to be inserted *)
+Theorem C05_micro_store_ids_distinct_all :
+  forall cfg evs k1 k2 e1 e2, c_debug cfg = true ->
+  let ms := mrun cfg evs in
+  shut (mbase ms) = false -> worker (mbase ms) <> Dead ->
+  alookup k1 (store (mbase ms)) = Some e1 -> alookup k2 (store (mbase ms)) = Some e2 -> e_id e1 = e_id e2 -> k1 = k2.
+Proof. exact micro_store_ids_distinct_all. Qed.
+Print Assumptions C05_micro_store_ids_distinct_all.
+
+(** (why the insert after admission finds its charge): under the same guard, the expiry index (as the sweeper reads it)
+   only lists ids that have been used - below the id counter, not carried by any pending put, and not the id the worker has
+   admitted but not yet stored - so a sweep can never release the charge of a key that is about to be inserted *)
+Theorem C05_micro_index_lists_used_ids_all :
+  forall cfg evs id, c_debug cfg = true ->
+  let ms := mrun cfg evs in
+  shut (mbase ms) = false -> worker (mbase ms) <> Dead -> TIN (ticker (mbase ms)) id ->
+  id < next_id (mbase ms) /\ ~ In id (put_ids (pending_cmds (mbase ms))) /\ adm_id ms <> Some id.
+Proof. exact micro_index_lists_used_ids_all. Qed.
+Print Assumptions C05_micro_index_lists_used_ids_all.
 
 (** (C05, C01 at every micro state of every micro schedule, no condition on the events): as long as the worker has
    not panicked, the total weight is exactly the sum of the charges, the charged ids are pairwise distinct, every charge
